@@ -136,8 +136,10 @@ template<> struct Sig<std::string> { static constexpr const char *name = "str"; 
 template<> struct Sig<std::string, int> { static constexpr const char *name = "str,int"; template<class R> static size_t notify(R &r, const RoutingKey &k) { return r.template notify<std::string, int>(k, std::string(PAYLOAD), 5); } static std::string expect() { return show(PAYLOAD, 5); } };
 
 // ---- operations
-enum OpKind { SUBSCRIBE, UNSUB, INVAL_H, INVAL_S, SHRINK, NKINDS };
-const char *kname[] = {"sub", "unsub", "invalh", "invals", "shrink"};
+// INVAL_P: invalidate through the handle WITHOUT a notify: the observer stays stored ("pending") until some notify reaches its key; it is never called again, its
+// subscription handle is still valid, and as far as shrink is concerned its key still has a subscription
+enum OpKind { SUBSCRIBE, UNSUB, INVAL_H, INVAL_S, SHRINK, INVAL_P, NKINDS };
+const char *kname[] = {"sub", "unsub", "invalh", "invals", "shrink", "invalp"};
 struct Op { int kind, arg; };
 std::string op_str(const Op &o) { return std::string(kname[o.kind]) + std::to_string(o.arg); }
 bool parse_ops(const std::string &text, std::vector<Op> &h) {
@@ -158,17 +160,19 @@ template<typename... Args> struct HandleOf<SubjectRouter, Args...> {
     void unsubscribe() { h->unsubscribe(); }
     bool can_invalidate() { return true; }
     void invalidate() { h->getObserver()->invalidate(); }
+    bool is_valid() { return h->isValid(); }
 };
 template<typename... Args> struct HandleOf<ConcurrentSubjectRouter, Args...> {
     std::optional<USubscription> h;
     void unsubscribe() { (*h)->unsubscribe(); }
     bool can_invalidate() { return false; }
     void invalidate() {}
+    bool is_valid() { return true; }
 };
 const SubjectRouter &plain(const SubjectRouter &r) { return r; }
 const SubjectRouter &plain(const ConcurrentSubjectRouter &r) { return r.m_router; }
 
-struct MSub { int obs; int key; bool live = true; };
+struct MSub { int obs; int key; bool live = true; bool pending = false; };      // pending: invalidated, not called any more, but still stored in its subject
 
 template<typename R, typename... Args> struct Sys {
     using S = Sig<Args...>;
@@ -189,18 +193,24 @@ template<typename R, typename... Args> struct Sys {
 
     bool pre(const Op &o) {
         switch (o.kind) {
-        case SUBSCRIBE: return o.arg < (int)U->sub_keys.size() && live_count() < maxlive && live_on(o.arg) < 2 && (dead_keys() <= maxdead || has_subject.count(all_index(U->sub_keys[o.arg])));
+        case SUBSCRIBE: { bool pend = false; for (auto &s : subs) pend |= s.pending; if (pend && !thorough()) return false; }      // quick tier: nothing new is subscribed while an invalidated observer is waiting to be removed
+            return o.arg < (int)U->sub_keys.size() && live_count() < maxlive && live_on(o.arg) < 2 && (dead_keys() <= maxdead || has_subject.count(all_index(U->sub_keys[o.arg])));
         case UNSUB: case INVAL_S: return o.arg < (int)subs.size() && subs[o.arg].live;
         case INVAL_H: return o.arg < (int)subs.size() && subs[o.arg].live && handles[o.arg].can_invalidate();
+        case INVAL_P: { int pend = 0; for (auto &s : subs) pend += s.pending; return c13 && pend == 0 && live_count() <= (thorough() ? 2 : 1) && o.arg < (int)subs.size() && subs[o.arg].live && handles[o.arg].can_invalidate(); }      // C13 run only, one pending observer at a time
         case SHRINK: return o.arg < (int)U->shrink_patterns.size();
         }
         return false;
     }
 
+    // every notify that reaches the key of a pending observer drops it from its subject
+    void drop_pending(const Pattern &p) { for (auto &s : subs) if (s.pending && matches(p, U->sub_keys[s.key])) s.pending = false; }
+
     void check_notify(int pi, const std::set<int> &removed_before_call, const char *ctx) {
         const Pattern &p = U->patterns[pi];
         g_calls.clear();
         size_t ret = S::notify(*router, K.pat_rk(pi));
+        drop_pending(p);
         std::vector<Call> want; size_t keys_with_subject = 0;
         for (auto &s : subs) if (s.live && !removed_before_call.count(s.obs) && matches(p, U->sub_keys[s.key])) want.push_back(Call{s.obs, S::expect()});
         for (int k : has_subject) if (matches(p, U->all_keys[k])) keys_with_subject++;
@@ -217,7 +227,7 @@ template<typename R, typename... Args> struct Sys {
     // what every probe pattern delivers in the current state (observer ids and received values, sorted)
     std::vector<std::vector<Call>> all_deliveries() {
         std::vector<std::vector<Call>> out;
-        for (size_t pi = 0; pi < U->patterns.size(); pi++) { g_calls.clear(); S::notify(*router, K.pat_rk((int)pi)); std::vector<Call> got = g_calls; std::sort(got.begin(), got.end()); out.push_back(std::move(got)); }
+        for (size_t pi = 0; pi < U->patterns.size(); pi++) { g_calls.clear(); S::notify(*router, K.pat_rk((int)pi)); drop_pending(U->patterns[pi]); std::vector<Call> got = g_calls; std::sort(got.begin(), got.end()); out.push_back(std::move(got)); }
         g_calls.clear();
         return out;
     }
@@ -263,13 +273,14 @@ template<typename R, typename... Args> struct Sys {
         case INVAL_H: {      // invalidate through the handle, then the next notify of its key removes it without invoking it
             handles[o.arg].invalidate();
             int pi = concrete_pattern(subs[o.arg].key);
-            if (check) check_notify(pi, {subs[o.arg].obs}, "after invalidate(): "); else S::notify(*router, K.pat_rk(pi));
+            if (check) check_notify(pi, {subs[o.arg].obs}, "after invalidate(): "); else { S::notify(*router, K.pat_rk(pi)); drop_pending(U->patterns[pi]); }
             subs[o.arg].live = false; break;
         }
+        case INVAL_P: handles[o.arg].invalidate(); subs[o.arg].live = false; subs[o.arg].pending = true; break;
         case INVAL_S: {      // the observer invalidates itself from inside its callback: it is invoked this one last time
             g_self_invalidate.insert(subs[o.arg].obs);
             int pi = concrete_pattern(subs[o.arg].key);
-            if (check) check_notify(pi, {}, "self-invalidating round: "); else S::notify(*router, K.pat_rk(pi));
+            if (check) check_notify(pi, {}, "self-invalidating round: "); else { S::notify(*router, K.pat_rk(pi)); drop_pending(U->patterns[pi]); }
             subs[o.arg].live = false; break;
         }
         case SHRINK: {
@@ -278,11 +289,13 @@ template<typename R, typename... Args> struct Sys {
             router->shrink(build_pattern(U->patterns[pi]));      // a temporary as well
             std::set<int> after = stored();
             for (auto it = has_subject.begin(); it != has_subject.end();) if (!after.count(*it)) it = has_subject.erase(it); else ++it;
+            // an invalidated observer that no notify has reached yet is still stored: its handle must stay usable (the subject behind it must not be gone)
+            for (size_t i = 0; i < subs.size(); i++) if (subs[i].pending && !handles[i].is_valid()) bad("shrink:pending-handle", fmt("after shrink(%s) the handle of the invalidated but not yet removed observer %zu reports invalid", pat_str(p).c_str(), i));
             if (!check || !c13) break;      // the removal rules are C13's clauses: not judged by the C06 run (which still compares every delivery after the shrink with the model)
             for (int k : after) if (!before.count(k)) bad("shrink:key-appeared", "shrink(" + pat_str(p) + ") made key " + path_str(U->all_keys[k]) + " appear");
             for (int k : before) if (!after.count(k)) {
                 const Path &gone = U->all_keys[k];
-                for (auto &s : subs) if (s.live) { const Path &sk = U->sub_keys[s.key]; if (sk.size() >= gone.size() && std::equal(gone.begin(), gone.end(), sk.begin())) bad("shrink:live-key-removed", "shrink(" + pat_str(p) + ") removed key " + path_str(gone) + " although " + path_str(sk) + " still has a live subscription"); }
+                for (auto &s : subs) if (s.live || s.pending) { const Path &sk = U->sub_keys[s.key]; if (sk.size() >= gone.size() && std::equal(gone.begin(), gone.end(), sk.begin())) bad("shrink:live-key-removed", "shrink(" + pat_str(p) + ") removed key " + path_str(gone) + " although " + path_str(sk) + " still has a live subscription"); }
                 // the parent of a removed key must lie along the pattern
                 Path parent(gone.begin(), gone.end() - 1);
                 bool along = parent.size() <= p.size();
@@ -291,7 +304,7 @@ template<typename R, typename... Args> struct Sys {
             }
             bool full_wild = p.size() == 3 && p[0] == L_ALL && p[1] == L_ALL && p[2] == L_ALL;
             if (full_wild) {
-                std::set<int> want; for (auto &s : subs) if (s.live) { const Path &sk = U->sub_keys[s.key]; for (size_t n = 1; n <= sk.size(); n++) want.insert(all_index(Path(sk.begin(), sk.begin() + n))); }
+                std::set<int> want; for (auto &s : subs) if (s.live || s.pending) { const Path &sk = U->sub_keys[s.key]; for (size_t n = 1; n <= sk.size(); n++) want.insert(all_index(Path(sk.begin(), sk.begin() + n))); }
                 if (after != want) { std::string a, b; for (int k : after) a += path_str(U->all_keys[k]) + " "; for (int k : want) b += path_str(U->all_keys[k]) + " "; bad("shrink:dead-branch-left", "after a full-depth wildcard shrink the stored keys are {" + a + "}, expected exactly the keys that still lead to an observer {" + b + "}"); }
             }
             break;
@@ -308,7 +321,7 @@ template<typename R, typename... Args> struct Sys {
 
     template<typename N> static void node_key(const N &n, std::string &out) {
         out += n.m_name; out += n.m_subject ? 'S' : '-';
-        if (n.m_subject) { int c = 0; for (auto &d : n.m_subject->m_observers) { (void)d; c++; } out += std::to_string(c); }
+        if (n.m_subject) { for (auto &d : n.m_subject->m_observers) out += d.observer->isValid() ? 'v' : 'x'; }
         out += '(';
         for (auto &kv : n.m_children) node_key(kv.second, out);
         out += ')';
@@ -367,7 +380,7 @@ template<typename R, typename... Args> void bfs(int maxlive, bool c13, const cha
     Sys<R, Args...> sys; sys.maxlive = maxlive; sys.c13 = c13;
     std::vector<Op> alpha;
     for (int i = 0; i < (int)U->sub_keys.size(); i++) alpha.push_back(Op{SUBSCRIBE, i});
-    for (int i = 0; i < 14; i++) { alpha.push_back(Op{UNSUB, i}); alpha.push_back(Op{INVAL_H, i}); alpha.push_back(Op{INVAL_S, i}); }
+    for (int i = 0; i < 14; i++) { alpha.push_back(Op{UNSUB, i}); alpha.push_back(Op{INVAL_H, i}); alpha.push_back(Op{INVAL_S, i}); alpha.push_back(Op{INVAL_P, i}); }
     for (int i = 0; i < (int)U->shrink_patterns.size(); i++) alpha.push_back(Op{SHRINK, i});
     std::string prefix = fmt("router=%s sig=%s maxlive=%d c13=%d :", rname, Sig<Args...>::name, maxlive, (int)c13);
     auto hs = [&](const std::vector<Op> &h, const Op *o) { std::string s = prefix; for (auto &p : h) s += " " + op_str(p); if (o) s += " " + op_str(*o); return s; };
